@@ -1,11 +1,11 @@
 package main
 
 import (
-	"go/constant"
-	"regexp"
 	"fmt"
+	"go/constant"
 	"go/token"
 	"go/types"
+	"regexp"
 	"strings"
 
 	"golang.org/x/tools/go/ssa"
@@ -250,6 +250,7 @@ func sameItem(a, b ssa.Value) bool {
 // exempt are skipped with the given reason; functions whose name ends in
 // "Locked" are checked at their call sites instead.
 func guardedBy(r *Report, rule, pkg, typ, field, lockField string, exempt map[string]string) {
+	lockField = r.lockFor(pkg, typ, field, lockField)
 	lsCache := map[*ssa.Function]*LockSets{}
 	for _, fa := range r.P.FieldAccesses(pkg, typ, field) {
 		fn := fa.Fn
@@ -353,6 +354,7 @@ func checkLockedHelperCallers(r *Report, rule string, helper *ssa.Function, lock
 // mutation (re-check idiom); a lookup made in an earlier critical section
 // alone is a check-then-act race.
 func checkThenActSameSection(r *Report, rule, pkg, typ, field, lockField string) {
+	lockField = r.lockFor(pkg, typ, field, lockField)
 	byFn := map[*ssa.Function][]FieldAccess{}
 	for _, fa := range r.P.FieldAccesses(pkg, typ, field) {
 		byFn[fa.Fn] = append(byFn[fa.Fn], fa)
